@@ -63,20 +63,24 @@ type c34Case struct {
 	Proto  int `json:"proto"`
 	Local  int `json:"local"`
 	Remote int `json:"remote"`
+	// TargetProto (relay): 0 none, 1 = the protocol of the incoming stream, 2.. = index into the protocol pool; it
+	// names what the relay opens towards its target and must not influence which streams it takes
+	TargetProto int `json:"target_proto,omitempty"`
 }
 
 var c34Handlers = []string{"echo", "forwarding", "relay", "accept", "srpc", "pubsub", "solicit"}
 
 func genC34(t *rapid.T) c34Case {
 	c := c34Case{
-		Handler:  rapid.SampledFrom(c34Handlers).Draw(t, "handler"),
-		CProto:   rapid.IntRange(0, len(protoPool)-1).Draw(t, "cproto"),
-		CProtos:  rapid.SliceOfN(rapid.IntRange(1, len(protoPool)-1), 1, 3).Draw(t, "cprotos"),
-		CLocal:   rapid.IntRange(0, 3).Draw(t, "clocal"),
-		CRemotes: rapid.SliceOfN(rapid.IntRange(1, 3), 0, 2).Draw(t, "cremotes"),
-		CLocals:  rapid.SliceOfN(rapid.IntRange(1, 3), 0, 2).Draw(t, "clocals"),
-		Local:    rapid.IntRange(0, 3).Draw(t, "local"),
-		Remote:   rapid.IntRange(0, 3).Draw(t, "remote"),
+		Handler:     rapid.SampledFrom(c34Handlers).Draw(t, "handler"),
+		CProto:      rapid.IntRange(0, len(protoPool)-1).Draw(t, "cproto"),
+		CProtos:     rapid.SliceOfN(rapid.IntRange(1, len(protoPool)-1), 1, 3).Draw(t, "cprotos"),
+		CLocal:      rapid.IntRange(0, 3).Draw(t, "clocal"),
+		CRemotes:    rapid.SliceOfN(rapid.IntRange(1, 3), 0, 2).Draw(t, "cremotes"),
+		CLocals:     rapid.SliceOfN(rapid.IntRange(1, 3), 0, 2).Draw(t, "clocals"),
+		Local:       rapid.IntRange(0, 3).Draw(t, "local"),
+		Remote:      rapid.IntRange(0, 3).Draw(t, "remote"),
+		TargetProto: rapid.SampledFrom([]int{0, 0, 1, 1, 2, 3, 4}).Draw(t, "targetproto"),
 	}
 	// incoming protocol: usually the configured one, sometimes another
 	if rapid.IntRange(0, 2).Draw(t, "sameproto") != 0 {
@@ -127,6 +131,12 @@ func (c c34Case) build() (h interface {
 		return ctrl, func(p string, l, r peer.ID) bool { return p == cproto && (clocal == "" || l == clocal) }, true
 	case "relay":
 		conf := &stream_relay.Config{PeerId: peerStr(c.CLocal), ProtocolId: cproto, TargetPeerId: gen.PeerID(3).String()}
+		switch {
+		case c.TargetProto == 1:
+			conf.TargetProtocolId = protoPool[c.Proto]
+		case c.TargetProto >= 2:
+			conf.TargetProtocolId = protoPool[c.TargetProto%len(protoPool)]
+		}
 		if conf.Validate() != nil {
 			return nil, nil, false
 		}
